@@ -9,10 +9,12 @@ def _load(n):
     return m
 c17 = _load('c17')
 c48 = _load('c48')
+c04 = _load('c04')
 
 LEVEL = 'proof'
 TRUSTED_BASE = c48.TRUSTED_BASE
-ASSUMPTIONS = c48.ASSUMPTIONS + ['dynamic/adaptive paths bind worker i to states[i] and the caller to states[numToLaunch] (read off std::advance(stateIt, idx) in their generator lambdas; inside the stubs)',
+ASSUMPTIONS = c48.ASSUMPTIONS + ['dynamic path, no-wait tail: proved per worker (exit ticket only after the last claimed chunk; exit action with that ticket; tail only for the last exit ticket); that the last exit ticket is drawn after all others is the counting argument over fetch_add stated in specs/c14_dynamic.c (atomic RMW axiom), and `c * chunkSize` is an uninterpreted injective function of the chunk number there',
+                                 'dynamic/adaptive paths bind worker i to states[i] and the caller to states[numToLaunch] (read off std::advance(stateIt, idx) in their generator lambdas; inside the stubs)',
                                  'the states container is rendered by its size']
 EXPLANATION = 'ghost state-ownership ledger over the extracted parallel_for control flow + initStates + static index->state remap'
 
@@ -51,6 +53,88 @@ def static_pieces(ctx):
                    ('R13', r'auto\s+callerBounds\s*=\s*chunkRange\(([^();]+)\);', r'size_type callerBoundsArg = (\1);', 1)])
 
 
+PD = 'dispenso/detail/par_for_dynamic.h'
+
+
+def dynamic_pieces(ctx):
+    """the single-group worker lambda of parallel_for_dynamicImpl, the exit action of the no-wait dispatch and its lastExit"""
+    r = ctx.repo
+    impl = r.function(PD, r'void\s+parallel_for_dynamicImpl\s*\([^)]*\)')
+    w = c04.lambda_body(impl, r'auto\s+worker\s*=\s*\[[^\]]*&index[^\]]*\]\s*\(auto&\s+s\)\s*\{', 'parallel_for_dynamicImpl worker')
+    # the loop contract is only written for the shape `while (true) { draw; ... }` (no loop-carried locals); any other shape is unwound
+    # (bounded, numChunks < DYN_MAXCHUNKS small) so that a restructured but correct loop is not judged by an invariant that does not fit it
+    lc = ('LC', r'while\s*\(true\)\s*\{', 'while (1) __CPROVER_assigns(DYN_FRAME) __CPROVER_loop_invariant(g_exit_tickets == 0 && g_exit_calls == 0 && !g_claim_valid[0] && !g_claim_valid[1]) {', 'opt')
+    c = ctx.emit('DYN_worker_single.body.inc', w, must_fire=['R7', 'R13'], typemap={'IntegerT': 'IntegerT'},
+                 subs=[lc,
+                       ('R17', r'auto\s+recurseInfo\s*=\s*detail::PerPoolPerThreadInfo::parForRecurse\(\);', '/* recursion marker (C46) */', 'opt'),
+                       ('R7', r'auto\s+(\w+)\s*=\s*index\.fetch_add\((\w+),\s*std::memory_order_(\w+)\);', r'size_type \1 = A_FETCH_ADD_index(\2, MO_\3);'),
+                       ('R7', r'(?<![\w.>])(\w+)\s*=\s*index\.fetch_add\((\w+),\s*std::memory_order_(\w+)\);', r'\1 = A_FETCH_ADD_index(\2, MO_\3);', 'opt'),
+                       ('R3u', r'(?<![\w.>])(\w+)\s*\*\s*chunkSize\b', r'CHUNK_OFF(\1)'),
+                       ('R9', r'auto\s+sidx\s*=', 'IntegerT sidx =', 'opt'),
+                       ('R13', r'(?<![\w.>])f\(s,\s*([^;]*?),\s*([^;,]*?)\);', r'G_f(\1, \2);'),
+                       ('R13', r'(?<![\w.>])exitAction\(([^;]*?)\);', r'G_exitAction(\1);'),
+                       ('R2', r'\btrue\b', '1', 'opt'), ('R2', r'\bfalse\b', '0', 'opt')])
+    shape_ok = '__CPROVER_loop_invariant' in c
+    mimpl = r.function(PD, r'void\s+parallel_for_dynamicMultiGroupImpl\s*\([^)]*\)')
+    mw = c04.lambda_body(mimpl, r'auto\s+worker\s*=\s*\[[^\]]*\bblock\b[^\]]*\]\s*\(auto&\s+s,\s*size_t\s+groupIdx\)\s*\{', 'multi-group worker')
+    lcm = ('LC', r'while\s*\(true\)\s*\{', 'while (1) __CPROVER_assigns(DYN_FRAME, g_block_read_late) __CPROVER_loop_invariant(!g_exit_counted && !g_block_read_late && !g_block_freed && g_exit_calls_m == 0 && !g_claim_valid[0] && !g_claim_valid[1]) {', 'opt')
+    cm = ctx.emit('DYN_worker_multi.body.inc', mw, must_fire=['R7', 'R13', 'R17'], typemap={'IntegerT': 'IntegerT', 'decltype(numChunks)': 'size_type', 'typename ChunkedRange<IntegerT>::size_type': 'size_type', 'ChunkedRange<IntegerT>::size_type': 'size_type'},
+                  subs=[lcm,
+                        ('R17', r'auto\s+recurseInfo\s*=\s*detail::PerPoolPerThreadInfo::parForRecurse\(\);', '/* recursion marker (C46) */', 'opt'),
+                        ('R17', r'auto&\s+gr\s*=\s*block->ranges\(\)\[groupIdx\];', '/* gr = block->ranges()[groupIdx]: this worker\'s group */'),
+                        ('R17', r'const\s+size_t\s+totalWorkersLocal\s*=\s*block->totalWorkers;', 'const size_t totalWorkersLocal = B_totalWorkers();', 'opt'),
+                        ('R17', r'const\s+bool\s+owned\s*=\s*block->heapOwned;', 'const bool owned = B_heapOwned();', 'opt'),
+                        ('R7', r'auto\s+(\w+)\s*=\s*gr\.index\.fetch_add\((\w+),\s*std::memory_order_(\w+)\);', r'size_type \1 = A_FETCH_ADD_gindex(\2, MO_\3);'),
+                        ('R7', r'(?<![\w.>])(\w+)\s*=\s*gr\.index\.fetch_add\((\w+),\s*std::memory_order_(\w+)\);', r'\1 = A_FETCH_ADD_gindex(\2, MO_\3);', 'opt'),
+                        ('R7', r'auto\s+(\w+)\s*=\s*block->exitCounter\.fetch_add\((\w+),\s*std::memory_order_(\w+)\);', r'size_t \1 = A_FETCH_ADD_exitCounter(\2, MO_\3);'),
+                        ('R17', r'gr\.numGroupChunks', 'B_numGroupChunks()'), ('R17', r'gr\.startChunk', 'B_startChunk()'),
+                        ('R17', r'block->totalWorkers', 'B_totalWorkers()', 'opt'), ('R17', r'block->heapOwned', 'B_heapOwned()', 'opt'),
+                        ('R9', r'auto\s+globalChunk\s*=', 'size_type globalChunk =', 'opt'),
+                        ('R3u', r'(?<![\w.>])(\w+)\s*\*\s*chunkSize\b', r'CHUNK_OFF(\1)'),
+                        ('R9', r'auto\s+sidx\s*=', 'IntegerT sidx =', 'opt'),
+                        ('R13', r'(?<![\w.>])f\(s,\s*([^;]*?),\s*([^;,]*?)\);', r'G_f(\1, \2);'),
+                        ('R13', r'(?<![\w.>])exitAction\(([^;]*?)\);', r'G_exitAction_m(\1);'),
+                        ('R17', r'detail::alignedFree\(block\);', 'G_free_block();'),
+                        ('R2', r'\btrue\b', '1', 'opt'), ('R2', r'\bfalse\b', '0', 'opt')])
+    shape_ok = (shape_ok, '__CPROVER_loop_invariant' in cm)
+    disp = r.function(PD, r'void\s+parallel_for_dynamicNoWaitDispatch\s*\([^)]*\)')
+    if not re.search(r'auto&\s+tailState\s*=\s*\*states\.begin\(\);', disp.text):
+        raise X.ExtractionError('parallel_for_dynamicNoWaitDispatch: the tail no longer uses *states.begin()')
+    ea = c04.lambda_body(disp, r'\[ci,\s*lastExit,[^\]]*\]\s*\(\s*auto\s+cur\)\s*\{', 'no-wait exit action')
+    ctx.emit('DYN_exitAction.body.inc', ea, must_fire=['R13', 'R17'],
+             subs=[('R13', r'tailFunc\(tailState,\s*tailStart,\s*tailEnd\);', 'G_tailFunc();'),
+                   ('R17', r'deallocSmallBuffer<kCacheLineSize>\(ci\);', 'G_dealloc_ci();')])
+    sl = X.slice_between(disp, r'SizeType\s+lastExit\s*=', r'IntegerT\s+tailStart', include_end=False)
+    ctx.emit('DYN_lastExit.slice.inc', sl, must_fire=['R9'], typemap={'SizeType': 'size_type'},
+             subs=[('R9', r'SizeType\s+lastExit\s*=', 'size_type lastExit_local =')])
+    return shape_ok
+
+
+def dynamic_units(ctx, shapes):
+    shape_ok, mshape_ok = shapes
+    units = []
+    for st, it in (('uint32_t', 'int32_t'), ('uint64_t', 'int64_t')):
+        d = {'DYN_SIZE_T': st, 'DYN_INT_T': it, 'DYN_MAXCHUNKS': '(((size_type)-1) / 2)' if shape_ok else '4'}
+        common = dict(defines=d, inst='size_type=%s,IntegerT=%s' % (st, it), timeout=600)
+        if shape_ok:
+            units.append(Unit('parallel_for_dynamicImpl.worker (single group)', 'cbmc', 'specs/c14_dynamic.c', 'DYN_worker_single', loop_contracts=True,
+                              expect=[r'postcondition', r'A_FETCH_ADD_index\.assertion', r'G_f\.assertion', r'G_exitAction\.assertion'], **common))
+        else:
+            units.append(Unit('parallel_for_dynamicImpl.worker (single group)', 'cbmc', 'specs/c14_dynamic.c', 'DYN_worker_single', unwind=7,
+                              bounded='loop shape not `while (true)`: unwound, fewer than 4 chunks per range', expect=[r'postcondition', r'A_FETCH_ADD_index\.assertion'], **common))
+        dm = dict(d); dm['DYN_MAXCHUNKS'] = '(((size_type)-1) / 2)' if mshape_ok else '4'
+        cm = dict(common, defines=dm)
+        if mshape_ok:
+            units.append(Unit('parallel_for_dynamicMultiGroupImpl.worker', 'cbmc', 'specs/c14_dynamic.c', 'DYN_worker_multi', loop_contracts=True,
+                              expect=[r'postcondition', r'A_FETCH_ADD_exitCounter\.assertion', r'G_f\.assertion', r'G_exitAction_m\.assertion'], **cm))
+        else:
+            units.append(Unit('parallel_for_dynamicMultiGroupImpl.worker', 'cbmc', 'specs/c14_dynamic.c', 'DYN_worker_multi', unwind=7,
+                              bounded='loop shape not `while (true)`: unwound, fewer than 4 chunks per range', expect=[r'postcondition', r'A_FETCH_ADD_exitCounter\.assertion'], **cm))
+        units.append(Unit('parallel_for_dynamicNoWaitDispatch.exitAction', 'cbmc', 'specs/c14_dynamic.c', 'DYN_exitAction', expect=[r'postcondition'], **common))
+        units.append(Unit('parallel_for_dynamicNoWaitDispatch.lastExit', 'cbmc', 'specs/c14_dynamic.c', 'DYN_lastExit', expect=[r'postcondition'], **common))
+    return units
+
+
 def static_units(ctx, insts):
     units = []
     for t, uu, sg in insts:
@@ -79,5 +163,6 @@ def build(ctx):
                           expect=[r'postcondition\.5', r'precondition'], flags=['--unwind', '9'],
                           replay=dict(prog='replay/c48_replay.cpp', args=lambda ce, u: ['skeleton', 'T=' + u.inst] + ['%s=%s' % (k, str(v).rstrip('ulUL')) for k, v in sorted(ce.items())])))
     units += static_units(ctx, [c17.INSTS[4], c17.INSTS[7]] if ctx.tier == 'quick' else c17.INSTS)
+    units += dynamic_units(ctx, dynamic_pieces(ctx))
     units.append(Unit('initStates', 'intwp', 'specs/c14_states.c', 'initStates_size', defines=c17.inst_defines('int64_t', 'uint64_t', 1), expect=[r'postcondition\.3', r'loop_invariant_step', r'decreases'], timeout=120))
     return units
